@@ -207,6 +207,7 @@ fn worker<P: Property>(args: &Args) -> i32 {
         res.runs += 1;
         trace_reset();
         let verdict = P::execute(&scn, &mut res.stats);
+        console_discard();
         if let Some(f) = digest_log.as_mut() {
             let cls = match &verdict {
                 Verdict::Pass { sig, nontrivial } => format!("pass {:016x} {}", sig, nontrivial),
@@ -307,6 +308,18 @@ fn redirect_stdout(path: &str) {
 
 thread_local! {
     static CONSOLE: std::cell::RefCell<Option<std::fs::File>> = std::cell::RefCell::new(None);
+}
+
+/// Drop whatever is in the capture file (called after every run so that it never grows).
+pub fn console_discard() {
+    let _ = std::io::stdout().flush();
+    CONSOLE.with(|c| {
+        if let Some(f) = c.borrow_mut().as_mut() {
+            if f.metadata().map(|m| m.len() > 0).unwrap_or(false) {
+                let _ = f.set_len(0);
+            }
+        }
+    });
 }
 
 /// Everything the guest printed since the last call (C14). Truncates the capture file.
